@@ -673,8 +673,17 @@ func c18ResumeAboveFloor(c *Ctx) {
 					}
 				}
 			case *ssa.Phi:
-				for _, e := range x.Edges {
-					if !atLeast(e, d+1) {
+				// max written as an if: an arm that is not the floor itself must come in under `arm > floor` / `arm >= floor`
+				ft := term(floor)
+				for i, e := range x.Edges {
+					if atLeast(e, d+1) {
+						continue
+					}
+					pred := x.Block().Preds[i]
+					et := term(e)
+					dd := p.mustHoldAt(pred.Instrs[len(pred.Instrs)-1])
+					if o, _ := everyDisjunctHas(dd, []string{et + " > " + ft}, []string{et + " >= " + ft}, []string{ft + " < " + et}, []string{ft + " <= " + et},
+						[]string{"^!", et + " <= " + ft}, []string{"^!", et + " < " + ft}, []string{"^!", ft + " >= " + et}, []string{"^!", ft + " > " + et}); !o {
 						return false
 					}
 				}
@@ -702,12 +711,36 @@ func c18ResumeAboveFloor(c *Ctx) {
 			if len(r.Results) < 2 || !isNilConst(r.Results[len(r.Results)-1]) {
 				continue
 			}
-			if bt, ok := r.Results[0].Type().Underlying().(*types.Basic); !ok || bt.Kind() != types.Uint64 {
-				continue
+			// the block numbers handed back: the first result if it is a uint64, or the uint64 fields of a struct built here
+			var cands []ssa.Value
+			if bt, ok := r.Results[0].Type().Underlying().(*types.Basic); ok && bt.Kind() == types.Uint64 {
+				cands = append(cands, r.Results[0])
+			} else if _, isStruct := r.Results[0].Type().Underlying().(*types.Struct); isStruct {
+				for v := range backSlice(r.Results[0]) {
+					if al, ok := v.(*ssa.Alloc); ok {
+						if refs := al.Referrers(); refs != nil {
+							for _, rr := range *refs {
+								if fa, ok := rr.(*ssa.FieldAddr); ok {
+									if bt, ok := fa.Type().(*types.Pointer).Elem().Underlying().(*types.Basic); ok && bt.Kind() == types.Uint64 {
+										if fr := fa.Referrers(); fr != nil {
+											for _, st := range *fr {
+												if sto, ok := st.(*ssa.Store); ok && sto.Addr == ssa.Value(fa) {
+													cands = append(cands, sto.Val)
+												}
+											}
+										}
+									}
+								}
+							}
+						}
+					}
+				}
 			}
-			n++
-			c.check(atLeast(r.Results[0], 0), "resume-above-floor", qname(fn)+": start block", p.Pos(posOf(r.Ret, fn)), "the start is the oldest retained block or max(…, oldest retained block)",
-				"the block a resumable migration starts from ("+clip(term(r.Results[0]), 120)+") is not bounded below by the oldest retained block: a checkpoint written before pruning raised the floor points at blocks that no longer exist, and every start fails on them")
+			for _, cv := range cands {
+				n++
+				c.check(atLeast(cv, 0), "resume-above-floor", qname(fn)+": start block", p.Pos(posOf(r.Ret, fn)), "the start is the oldest retained block or max(…, oldest retained block)",
+					"the block a resumable migration starts from ("+clip(term(cv), 120)+") is not bounded below by the oldest retained block: a checkpoint written before pruning raised the floor points at blocks that no longer exist, and every start fails on them")
+			}
 		}
 	}
 	if n == 0 {
